@@ -67,6 +67,7 @@ func reference(plan *Plan) (exp [][]Outcome, e *env) {
 			for k := range e.defs {
 				delete(e.defs, k)
 			}
+			e.owned = e.owned[:0]
 			exp[ti][i] = e.execOp(&ops[i])
 		}
 	}
